@@ -327,7 +327,9 @@ def raSearchStep (t : List String) : String :=
   | ["orderings"] =>
     match Tables.ofTable Generated.SyncOrderings.table with
     | none => "err orderings-table-unreadable"
-    | some o => s!"ok {reprStr o}"
+    | some o =>
+      let f (x : Ord) : String := x.toString
+      s!"ok capOpen={f o.capOpen} capHead={f o.capHead} fillTail={f o.fillTail} fillOpen={f o.fillOpen} fillTail2={f o.fillTail2} persistHead={f o.persistHead} persistTail={f o.persistTail} closeSwap={f o.closeSwap} dropHead={f o.dropHead} dropTail={f o.dropTail}"
   | _ => "bad-op"
 
 def raSearch : Component := Component.stateless "spsc-ra-search" raSearchStep
